@@ -67,6 +67,9 @@ func ErrClass(err error) string {
 
 // CheckMessage runs the C01 oracle on one message (pointer to RequestMessage/ResponseMessage).
 // It returns the encoding and whether every clause held.
+// the previous MarshalTTLV result and a private copy of it (workers are single-threaded)
+var kept struct{ bytes, copy []byte }
+
 func CheckMessage(c *core.Ctx, prop string, msg any, minor int, desc string) ([]byte, bool) {
 	exp, err := refmodel.Tree(msg, minor)
 	if err != nil {
@@ -80,6 +83,14 @@ func CheckMessage(c *core.Ctx, prop string, msg any, minor int, desc string) ([]
 		c.Violation(core.PanicSig(v, st), fmt.Sprintf("MarshalTTLV panicked: %v", v), map[string]any{"message": desc, "stack": st})
 		return nil, false
 	}
+	// the encoding returned for the PREVIOUS message must still carry that message (a result stays the caller's)
+	if kept.bytes != nil && !bytes.Equal(kept.bytes, kept.copy) {
+		c.Violation(prop+":returned-encoding-changed-later", "the byte slice returned by MarshalTTLV for an earlier message was modified by later encode calls: it no longer carries that message",
+			map[string]any{"earlier_result_now": hx(kept.bytes), "earlier_result_then": hx(kept.copy)})
+		kept.bytes = nil
+		return nil, false
+	}
+	kept.bytes, kept.copy = enc, append([]byte{}, enc...)
 	parsed, err := wire.Parse(enc)
 	if err != nil {
 		c.Violation(prop+":encoding-malformed", "independent parser rejects the encoding: "+err.Error(), map[string]any{"message": desc, "bytes": hx(enc)})
